@@ -7,7 +7,7 @@
    [read_row fixed es row] the trace read path (OutputQuery) on a stored row.
    Accepted spans have 16-byte trace ids and 8-byte span ids (onSpan rejects every other width): part of [row_of]. *)
 From Coq Require Import List ZArith NArith Bool String Permutation.
-From Qryn Require Import model.Spans model.SpansChunk proofs.SpansProofs proofs.SpansChunkProofs.
+From Qryn Require Import model.Spans model.SpansChunk proofs.SpansProofs proofs.SpansChunkProofs proofs.SpansTimeProofs.
 Import ListNotations.
 Open Scope Z_scope.
 
@@ -121,3 +121,37 @@ Theorem error_after_flush : forall thr psz inp,
     Forall (fun gr => gsize psz gr > thr) groups.
 Proof. exact error_after_flush_l. Qed.
 Print Assumptions error_after_flush.
+
+(* ---- time arithmetic.  Zipkin: every trace row of an accepted request carries exactly 1000 x the pushed microseconds
+   (JSON integer or decimal string; 0 when the member is absent), and that product lies inside int64: nothing is lost, nothing
+   wraps.  (Until ca42657 the product wrapped around silently and integers above 2^64 could come back from the JSON decoder as
+   garbage: legacy_time_wraps in the proofs file; now such a request is refused.) *)
+Theorem zipkin_times_no_loss : forall nd es rows ps,
+  decode fixed (InZipkin nd es) = Some rows -> pushed_of (InZipkin nd es) = Some ps ->
+  Forall2 (fun e sr => forall fs, e = JObj fs ->
+             z_time_of "timestamp" fs (t_ts (fst sr)) /\ z_time_of "duration" fs (t_dur (fst sr)) /\
+             - two63 <= t_ts (fst sr) < two63 /\ - two63 <= t_dur (fst sr) < two63) es rows.
+Proof. exact zipkin_times_no_loss_l. Qed.
+Print Assumptions zipkin_times_no_loss.
+
+(* the accepted numbers are exactly those whose nanoseconds fit int64 *)
+Theorem zipkin_time_domain : forall v x,
+  string_or_int64 v = Some x ->
+  (- two63 <= x * 1000 < two63 -> time_field v = Some (x * 1000)) /\ (~ (- two63 <= x * 1000 < two63) -> time_field v = None).
+Proof. intros v x H. split; [apply (time_field_total v x H)|apply (time_field_refused v x H)]. Qed.
+Print Assumptions zipkin_time_domain.
+
+(* OTLP: a span with start <= end < 2^63 ns is stored with exactly its start and end - start (outside this domain the int64
+   conversions wrap, otlp_time_outside; the read path still returns the pushed uint64 values: read_back) *)
+Theorem otlp_times_no_loss : forall ra s p,
+  otlp_pushed ra s = Some p -> 0 <= o_start s <= o_end s -> o_end s < two63 ->
+  p_ts p = o_start s /\ p_dur p = o_end s - o_start s.
+Proof. exact otlp_pushed_times. Qed.
+Print Assumptions otlp_times_no_loss.
+
+(* A Zipkin request without repeated member names that is accepted denotes spans: no row is ever stored for a member that is
+   not a value of its field (the check's oracle demands this of the implementation: must_reject in spec_ok). *)
+Theorem accepted_denotes : forall nd es rows,
+  decode fixed (InZipkin nd es) = Some rows -> forallb z_wellformed es = true -> pushed_of (InZipkin nd es) <> None.
+Proof. exact accepted_denotes_l. Qed.
+Print Assumptions accepted_denotes.
